@@ -23,8 +23,10 @@ class Tools:
         self.build = vlib.librime_build(flavour)
         self.deployer = os.path.join(self.build, "bin", "rime_deployer")
         san = flavour == "asan"
+        import hashlib
+        tag = hashlib.md5((vlib.REPO + "|" + self.build).encode()).hexdigest()[:8]
         self.deptool = vlib.cxx_build(
-            os.path.join(vlib.WORK, "bin", "deptool-" + flavour), [os.path.join(HERE, "deptool.cc")],
+            os.path.join(vlib.WORK, "bin", "deptool-%s-%s" % (flavour, tag)), [os.path.join(HERE, "deptool.cc")],
             flags="-I%s/src" % self.build, libs="-L%s/lib -lrime -lglog -Wl,-rpath,%s/lib" % (self.build, self.build), san=san)
         self.killso = os.path.join(vlib.WORK, "bin", "killpoint.so")
         src = os.path.join(HERE, "killpoint.c")
@@ -135,6 +137,14 @@ def render(state):
 
 
 def materialise(ws, state, mtimes=None, base=1500000000):
+    if callable(state):
+        os.makedirs(os.path.join(ws, "shared"), exist_ok=True)
+        os.makedirs(os.path.join(ws, "user"), exist_ok=True)
+        return state(ws)
+    return materialise_state(ws, state, mtimes, base)
+
+
+def materialise_state(ws, state, mtimes=None, base=1500000000):
     """(re)write the source files of `state` under ws/{shared,user}; source files
     that are no longer part of the state are deleted.  mtimes: {relpath: seconds};
     files without an entry get base + index."""
@@ -263,7 +273,8 @@ def sweep(T, scratch, name, state, pre_state=None, mode="hook", points=None, max
     ref = os.path.join(base, "ref")
     materialise(ref, state, mtimes)
     rc, err = T.deploy(ref)
-    res = dict(name=name, mode=mode, failures=[], outcomes={}, sites={}, points_total=0, points_run=0)
+    res = dict(name=name, mode=mode, failures=[], outcomes={}, sites={}, points_total=0, points_run=0, observations=[],
+               all_points=[])
     if rc != 0:
         res["failures"].append(dict(kind="clean-deploy-failed", point=0, site="-", detail=err[-2000:]))
         return res
@@ -299,6 +310,9 @@ def sweep(T, scratch, name, state, pre_state=None, mode="hook", points=None, max
         rc, err = T.deploy(cnt, killlog=log)
     pts = read_points(log)
     res["points_total"] = len(pts)
+    res["all_points"] = pts
+    res["final_sizes"] = {f: os.path.getsize(os.path.join(cnt, "user", "build", f))
+                          for f in sorted(os.listdir(os.path.join(cnt, "user", "build")))}
     _, inc_dump = T.dump(cnt, tfile)
     if rc != 0 or inc_dump != ref_dump:
         # incremental deploy differs from clean deploy: C12's business, but it invalidates the reference
@@ -354,6 +368,7 @@ def sweep(T, scratch, name, state, pre_state=None, mode="hook", points=None, max
             fails.append(dict(kind="dump-crash-after-kill", artefact="-", detail="deptool dump rc=%d" % rck))
         left = {f: os.path.getsize(os.path.join(run, "user", "build", f)) for f in sorted(os.listdir(os.path.join(run, "user", "build")))} \
             if os.path.isdir(os.path.join(run, "user", "build")) else {}
+        res["observations"].append((n, site, {f: v for f, v in probe.items()}, left))
         dlog = os.path.join(base, "deplog.txt")
         if os.path.exists(dlog):
             os.remove(dlog)
